@@ -1738,7 +1738,7 @@ is found again — as a nested level — in `db` and in the gap content from the
 rebased inner step is the same replace of `kN` (`Lvl.replaceKids_eq`) and yields the expected result `dab`; `dab` is
 valid (`C01.apply_valid` twice), and the rebased replace-around step reaches it by the target-based criterion
 `replaceKids_merged`: the gap is cut again with the node's content exchanged (`gap_slice_inner`), `Slice.insertAt`
-succeeds alike because it reads the fragment's top-level types and marks only (`insertAt_success_congr`), the
+succeeds alike because it reads the fragment's top-level types, marks and text-ness only (`insertAt_success_congr`), the
 right-hand sides are related through `d` (`rightRel_after_lvl`, `FwdFacts.rrel`).
 FULL STATEMENT (open for slices open on a side — a `lift` out of the middle of its parent): the same without `hcl`;
 needs the filled slice split as `fappend cA cB` at a top-level seam and `lcompat` for its left spine. -/
@@ -1826,13 +1826,13 @@ theorem commute_succeeds_around_gap (S : Schema) (htr : compatTransB S = true) (
   obtain ⟨ndg, ctxg, hLg, hGT⟩ := lvl_window_toks gap.content ty tyN aN mN kN _ _ hgn hkN hgT
   have hG'n : fnorm (ctxg kN') = true := hLg.ctx_norm hgn kN' hkN'
   have hgself : ctxg kN = gap.content := hLg.ctx_self
-  obtain ⟨lab1, lab2⟩ := hLg.ctx_labels S kN kN'
-  rw [hgself] at lab1 lab2
-  obtain ⟨I', hI'⟩ := insertAt_success_congr S sl I ins gap.content (ctxg kN') lab1 lab2 hinst
+  have lab1 := hLg.ctx_skeys S kN kN'
+  rw [hgself] at lab1
+  obtain ⟨I', hI'⟩ := insertAt_success_congr S sl I ins gap.content (ctxg kN') lab1 hinst
   obtain ⟨hI'T, hI'o1, hI'o2⟩ := insertAt_toks S sl I' ins (ctxg kN') hwf hins hI'
   have hI'n := insertAt_norm S sl I' ins (ctxg kN') hsn hG'n hI'
   obtain ⟨hIT, _, hIo2'⟩ := insertAt_toks S sl I ins gap.content hwf hins hinst
-  clear lab1 lab2 hgself hinst
+  clear lab1 hgself hinst
   have FRk := fwdFacts S ty K Ka f1 t1 s1 hrR
   have FA := fwdFacts S ty K Kb f t I hrA
   have hna : fnorm Ka = true := FRk.norm hn hsn1
